@@ -178,6 +178,33 @@ func c19r2(c *Ctx, id string) {
 	// run: a cancelled context ends the loop
 	run := w.Method("couchbase", "healthCheck", "run")
 	if run != nil {
+		// the round is handed run's own context — the one Stop cancels — and no derived context whose expiry the
+		// round would mistake for a Stop (ending the round silently instead of counting the failures)
+		if php := w.Method("couchbase", "healthCheck", "performHealthCheck"); php != nil {
+			k := 0
+			for f := range w.syncCallees(run, 1, false) {
+				for _, ci := range callsIn(f, php) {
+					k++
+					o := w.Origin(ci.Common().Args[1])
+					okCtx := o == "param("+run.Params[1].Name()+")" && f == run
+					if p, isP := unwrap(ci.Common().Args[1]).(*ssa.Parameter); isP && f != run {
+						// the call sits in a helper of run: the helper's context parameter is judged at run's call of it
+						okCtx = true
+						sites := callsIn(run, f)
+						for _, s := range sites {
+							if w.Origin(argOfParam(s.Common(), f, p)) != "param("+run.Params[1].Name()+")" {
+								okCtx = false
+							}
+						}
+						okCtx = okCtx && len(sites) > 0
+					}
+					c.Check(okCtx, id, fmt.Sprintf("round-context#%d", k), ci.Pos(), "the round runs under run's own context", "the round runs under "+o+", not under the context that Stop cancels: its expiry is indistinguishable from a Stop and ends a failing round without consequence")
+				}
+			}
+			if k == 0 {
+				c.Undecided(id, "round-context", run.Pos(), "run does not call performHealthCheck")
+			}
+		}
 		ok := false
 		allInstrs(run, func(in ssa.Instruction) {
 			if _, isRet := in.(*ssa.Return); isRet {
